@@ -16,6 +16,8 @@ pub struct ServeCase {
     pub ent: EntSpec,
     pub cap: u64,
     pub extra_polls: usize,
+    /// Entity::Data type: 0 = bytes::Bytes, 1 = a non-contiguous multi-segment Buf
+    pub data_kind: u8,
 }
 
 impl ServeCase {
@@ -26,6 +28,7 @@ impl ServeCase {
             ent,
             cap: 1 << 18,
             extra_polls: 2,
+            data_kind: 0,
         }
     }
     pub fn with(mut self, name: &str, v: &[u8]) -> ServeCase {
@@ -45,6 +48,7 @@ impl ServeCase {
             "ent": self.ent.to_json(),
             "cap": self.cap,
             "extra_polls": self.extra_polls,
+            "data_kind": self.data_kind,
         })
     }
     pub fn from_json(v: &Value) -> ServeCase {
@@ -61,6 +65,7 @@ impl ServeCase {
             ent: EntSpec::from_json(&v["ent"]),
             cap: v["cap"].as_u64().unwrap_or(1 << 18),
             extra_polls: v["extra_polls"].as_u64().unwrap_or(2) as usize,
+            data_kind: v["data_kind"].as_u64().unwrap_or(0) as u8,
         }
     }
 }
@@ -138,8 +143,16 @@ pub fn build_request(case: &ServeCase) -> Option<http::Request<()>> {
 /// Runs one case. `None` if the case cannot be expressed with the `http` crate's types (then it
 /// is outside every quantifier).
 pub fn run_serve(case: &ServeCase) -> Option<ServeObs> {
+    if case.data_kind == 1 {
+        run_serve_typed::<crate::segbuf::SegBuf>(case)
+    } else {
+        run_serve_typed::<bytes::Bytes>(case)
+    }
+}
+
+fn run_serve_typed<D: crate::ent::HData>(case: &ServeCase) -> Option<ServeObs> {
     let req = build_request(case)?;
-    let (ent, rec) = MonEntity::new(case.ent.clone());
+    let (ent, rec) = MonEntity::<D>::new(case.ent.clone());
     let r = crate::util::catch(|| http_serve::serve(ent, &req));
     let resp = match r {
         Err(p) => {
